@@ -16,7 +16,9 @@ from mc import core, trees
 from mc.core import fail
 
 PID = "C16"
-LAT1 = [0.0, 0.125, 0.25, 0.3, 0.5, 0.77, 1.0]
+import math
+# grid lines, cell interiors, the domain boundary, and the floating-point neighbours of grid lines (one ulp below / above)
+LAT1 = [0.0, 0.125, 0.25, math.nextafter(0.25, 0.0), 0.3, 0.5, math.nextafter(0.5, 1.0), 0.77, math.nextafter(0.75, 0.0), 1.0]
 
 
 def hat1d(pts, i, x):
@@ -51,7 +53,7 @@ def _hats_at(coords, x):
 
 
 def _datasets(d, full):
-    lat = LAT1 if full else [0.0, 0.25, 0.3, 0.77, 1.0]
+    lat = LAT1 if full else [0.0, 0.25, math.nextafter(0.25, 0.0), 0.3, 0.77, 1.0]
     pts = list(itertools.product(lat, repeat=d))
     if d == 3:
         pts = list(itertools.product([0.0, 0.25, 0.3, 0.77], repeat=3))[::3]
@@ -63,6 +65,16 @@ def _datasets(d, full):
 
 LABELS = {"none": None, "pm1": lambda n: np.array([1.0, -1.0][:n] if n > 1 else [1.0]), "neg": lambda n: np.array([-1.0] * n),
           "frac": lambda n: np.array([1.0, -0.5][:n] if n > 1 else [-0.5])}
+
+
+def _with_threshold(value, fn):
+    """run fn with the internal size threshold moved (guarded verification hook), so that the large-grid code path serves a small grid"""
+    import sparseSpACE.GridOperation as GO
+    GO._VERIF_DE_THRESHOLD = value
+    try:
+        return fn()
+    finally:
+        GO._VERIF_DE_THRESHOLD = None
 
 
 def _reference_solution(R, b, weights, labelled, lumped_diag=None):
@@ -122,6 +134,12 @@ def _uniform_case(c):
             if b.shape != bref.shape or not np.allclose(b, bref, rtol=1e-13, atol=1e-15):
                 fails.append(fail("rhs_equals_sample_mean", "level %r data %r labels %r: b %r, reference %r" % (lv, data, None if cls is None else cls.tolist(), b.tolist()[:6], bref.tolist()[:6]),
                                   dict(key, labels=lab)))
+                return fails, nevals
+            # the large-grid code path of the right-hand side (used from 200 grid points on) on the same grid, via the guarded hook
+            b_large = _with_threshold(0, lambda: np.asarray(op.calculate_B(X, lv), dtype=float))
+            if b_large.shape != bref.shape or not np.allclose(b_large, bref, rtol=1e-13, atol=1e-15):
+                fails.append(fail("rhs_equals_sample_mean", "large-grid path, level %r data %r labels %r: b %r, reference %r" % (lv, data, None if cls is None else cls.tolist(), b_large.tolist()[:6], bref.tolist()[:6]),
+                                  dict(key, labels=lab, path="large")))
                 return fails, nevals
             # hat routines agree (scalar / vectorised over hats in support / completely vectorised)
             ivecs = np.array(list(itertools.product(*[range(1, 2 ** l) for l in lv])), dtype=int)
@@ -208,6 +226,11 @@ def _nonuniform_case(c):
                 fails.append(fail("rhs_equals_sample_mean", "points %r data %r labels %r: b %r, reference %r" % (coords, data, None if cls is None else cls.tolist(), b.tolist()[:6], bref.tolist()[:6]),
                                   dict(key, labels=lab)))
                 return fails, nevals
+            b_large = _with_threshold(0, lambda: np.asarray(op.calculate_B_dimension_wise(X, coords, lvs), dtype=float))
+            if b_large.shape != bref.shape or not np.allclose(b_large, bref, rtol=1e-13, atol=1e-15):
+                fails.append(fail("rhs_equals_sample_mean", "large-grid path, points %r data %r labels %r: b %r, reference %r" % (coords, data, None if cls is None else cls.tolist(), b_large.tolist()[:6], bref.tolist()[:6]),
+                                  dict(key, labels=lab, path="large")))
+                return fails, nevals
             # scalar vs completely vectorised non-symmetric hats
             points, lower, upper = op.get_hat_domain_for_every_grid_point_vectorized(coords)
             comp = op.hat_function_non_symmetric_completely_vectorized(points, lower, upper, X)
@@ -241,9 +264,13 @@ def _combi_case(c):
     op = DensityEstimation(X.copy(), d, masslumping=c["masslumping"], lambd=lam, print_output=False, pre_scaled_data=True,
                            print_level=1000, log_level=1000)
     combi = StandardCombi(np.zeros(d), np.ones(d), operation=op, print_output=False, print_level=1000, log_level=1000)
-    combi.perform_operation(lmin, lmax)
     lat = list(itertools.product([0.0, 0.1, 0.25, 1 / 3, 0.5, 0.77, 1.0], repeat=d))
-    got = np.asarray(combi(lat)).ravel()
+    if c.get("threshold") is not None:
+        _with_threshold(c["threshold"], lambda: combi.perform_operation(lmin, lmax))
+        got = _with_threshold(c["threshold"], lambda: np.asarray(combi(lat)).ravel())
+    else:
+        combi.perform_operation(lmin, lmax)
+        got = np.asarray(combi(lat)).ravel()
     want = np.zeros(len(lat))
     for comp in combi.scheme:
         lv = [int(x) for x in comp.levelvector]
@@ -301,6 +328,7 @@ def cases(tier):
         for lmin, lmax in ((1, 2), (1, 3), (2, 3)):
             for lam in (0.0, 0.1):
                 out.append({"config": {"kind": "combi", "d": 2, "lmin": lmin, "lmax": lmax, "lambda": lam, "masslumping": False, "data": data}})
+                out.append({"config": {"kind": "combi", "d": 2, "lmin": lmin, "lmax": lmax, "lambda": lam, "masslumping": False, "data": data, "threshold": 0}})
     out.append({"config": {"kind": "combi", "d": 2, "lmin": 1, "lmax": 3, "lambda": 0.0, "masslumping": True, "data": data_menu[0]}})
     out.append({"config": {"kind": "combi", "d": 1, "lmin": 1, "lmax": 4, "lambda": 0.1, "masslumping": False, "data": [[0.3], [0.77], [0.5]]}})
     return out
@@ -318,8 +346,8 @@ def main(ctx):
     return ctx.finish(
         rule="one case = one component grid (uniform level vector, or refinement tree(s)) x lambda x mass lumping x analytic/numeric; "
              "inside a case every labelling of the menu and EVERY single-sample data set of the lattice {0,1/8,1/4,0.3,1/2,0.77,1}^d "
-             "plus all two-sample sets of a sub-lattice are decided (evaluations = data sets); combi cases compare the combined "
+             "(incl. the floating-point neighbours of grid lines) plus all two-sample sets of a sub-lattice are decided (evaluations = data sets); combi cases compare the combined "
              "density of StandardCombi with the reference surpluses",
-        assumptions=["data in the unit cube, pre_scaled_data=True", "mass-lumped form: Gram diagonal, with or without lambda (the uniform path "
+        assumptions=["data in the unit cube, pre_scaled_data=True", "the large-grid code paths (>= 200 points) are run on the same small grids through the guarded hook _VERIF_DE_THRESHOLD", "mass-lumped form: Gram diagonal, with or without lambda (the uniform path "
                      "omits it, the non-uniform path adds it; the statement does not say)",
                      "numeric (nquad) matrix entries only on 1D trees and three small 2D grids, tolerance 1e-9; analytic 1e-13"])
